@@ -338,6 +338,18 @@ static bool exec_op(const vj::val &op)
         var v = n.lra.new_var(l);
         emit("\"e\":\"lra_def\",\"l\":" + js(l) + ",\"ret\":" + std::to_string(v));
     }
+    else if (e == "lra_set_lb" || e == "lra_set_ub")
+    { // a bound set directly at root level, with the constant true literal as its reason (as the executor does for its tick);
+      // only used by the sequential / parallel comparison: the property-level specification has no such call
+        if (!n.sat.root_level() || !n.stable)
+            return false;
+        const var x = (var)op["x"].i();
+        const inf_rational v(rational(op["v"][0].i(), op["v"][1].i()));
+        const bool r = e == "lra_set_lb" ? n.lra.set_lb(x, v, TRUE_lit) : n.lra.set_ub(x, v, TRUE_lit);
+        n.stable = false;
+        root_result(r);
+        emit("\"e\":\"" + e + "\",\"x\":" + std::to_string(x) + ",\"v\":[" + std::to_string(op["v"][0].i()) + "," + std::to_string(op["v"][1].i()) + "],\"ret\":" + (r ? "1" : "0"));
+    }
     else if (e == "lra_rel")
     {
         if (!n.sat.root_level())
@@ -846,6 +858,27 @@ struct gen
                 for (size_t j = 0; j < ln["allows"].size(); ++j)
                     add_lit(ln["allows"][j].i());
             }
+        if (profile == "lrabig" && lra_vars.size() >= 2)
+        { // derived variables whose defining rows carry a constant term (as the executor creates them): they are pivoted later
+            const size_t nplain = lra_vars.size();
+            for (int i = 0, k = 2 + rnd(2); i < k && !n.dead; ++i)
+            {
+                std::vector<var> vs(lra_vars.begin(), lra_vars.begin() + nplain);
+                std::shuffle(vs.begin(), vs.end(), rng);
+                const int nv = 2 + rnd(std::min<int>(2, (int)nplain - 1));
+                std::sort(vs.begin(), vs.begin() + nv);
+                std::string l = "{\"v\":[";
+                for (int j = 0; j < nv; ++j)
+                    l += (j ? "," : "") + ("[" + std::to_string(vs[j]) + "," + rnd_coef() + "]");
+                l += "],\"k\":[" + std::to_string(1 + rnd(5)) + ",1]}";
+                if (run("{\"e\":\"lra_def\",\"l\":" + l + "}"))
+                {
+                    var v = (var)last_ret();
+                    if (std::find(lra_vars.begin(), lra_vars.end(), v) == lra_vars.end())
+                        lra_vars.push_back(v);
+                }
+            }
+        }
         for (int i = 0, k = (profile == "lrabig" ? 12 + rnd(8) : 3 + rnd(6)); i < k && !n.dead; ++i)
             create();
         // --- search ---
@@ -865,6 +898,14 @@ struct gen
             }
             int w = rnd(100);
             const bool root = n.sat.root_level();
+            if (profile == "lrabig" && root && n.stable && coin(35))
+            { // relations created after the tableau was pivoted mention basic variables: their rows are substituted
+                if (coin(30) && !lra_vars.empty())
+                    run(std::string("{\"e\":\"") + (coin(50) ? "lra_set_lb" : "lra_set_ub") + "\",\"x\":" + std::to_string(lra_vars[rnd((int)lra_vars.size())]) + ",\"v\":[" + std::to_string(rnd(13) - 2) + ",1]}");
+                else
+                    create();
+                continue;
+            }
             if (w < 45 && !lits.empty())
             {
                 long p = any_lit();
